@@ -446,7 +446,8 @@ func reportViolation(t *testing.T, sc *Scenario, res *RunResult, v Violation, ti
 	ei := res.EnumIndex
 	rf.EnumIndex = &ei
 	rf.History = &ReplayHistory{RunStart: uint64(envInt("VERIF_RUN_START", 0)), NWorkers: int(envInt("VERIF_NWORKERS", 1)), Scenario: os.Getenv("VERIF_SCENARIO")}
-	name := fmt.Sprintf("%s-%s-s%d-r%d.json", sc.Prop, sanitize(v.Sig), res.Seed, res.Run)
+	// (the readable part of the name is cut at 80 characters: the hash keeps two long signatures of one run apart)
+	name := fmt.Sprintf("%s-%s-%08x-s%d-r%d.json", sc.Prop, sanitize(v.Sig), uint32(fnv(v.Sig)), res.Seed, res.Run)
 	path := filepath.Join(replayDir, name)
 	if err := writeReplay(path, rf); err != nil {
 		path = "WRITE-FAILED:" + err.Error()
